@@ -11,7 +11,7 @@ from sa.model import Func, Repo
 from sa.norm import T
 from sa.report import Check
 
-from .common import callee_name, depends_on, flow_of, has_fact, subexprs
+from .common import every_alt_has, callee_name, depends_on, flow_of, has_fact, subexprs
 
 AP = "snaxc/ir/dart/access_pattern.py"
 SCHED = "snaxc/ir/dart/scheduler.py"
@@ -141,10 +141,20 @@ def rotate(repo: Repo, chk: Check) -> None:
     rets = [s for s in fl.stmts(ast.Return) if s.reachable]
     if not rets:
         raise AnalysisError(f"{f.where}: no return")
+    dim_p = f.param(1)
+    n_full = 0
     for s in rets:
         v = s.expand(s.node.value)
+        if isinstance(s.node.value, ast.Name) and s.node.value.id == "self":
+            # returning the pattern unchanged is the rotation only when the rotation is the identity (dim <= 1)
+            ident = every_alt_has(s, [f"{dim_p} <= 1", f"{dim_p} < 2", f"{dim_p} == 1", f"{dim_p} == 0"])
+            chk.result(ident, "C03.rotate", f"{f.key}:unrotated-return", s.where(), "the pattern is returned unchanged only when the rotation is the identity",
+                       "rotate returns the pattern un-rotated on a path where the rotation is not the identity: its bounds (and columns) fall out of step with the "
+                       "other operands of the schedule, which are rotated", s.fact_texts)
+            continue
         if not (isinstance(v, ast.Call) and len(v.args) >= 2):
             raise AnalysisError(f"{s.where()}: rotate does not return type(self)(bounds, pattern)")
+        n_full += 1
         bounds, pattern = v.args[0], v.args[1]
         # bounds: sum of slices of self.bounds
         segs_b: list[tuple[str, str]] = []
